@@ -41,7 +41,7 @@ def main(pid="C06"):
         groups = {}
         for c in cases:
             p = c["prog"]
-            key = (p["async"], p.get("sel"), p.get("extra"), p.get("kind"), p.get("depbounds"), len(p["params"]), p.get("shape"), p.get("ret"), p.get("target"), p.get("mock"), p.get("mixed"))
+            key = (p["async"], p.get("sel"), p.get("extra"), p.get("kind"), p.get("depbounds"), len(p["params"]), p.get("shape"), p.get("ret"), p.get("target"), p.get("mock"), p.get("mixed"), p.get("typed"))
             groups.setdefault(key, []).append(c)
         sel = []
         for k in sorted(groups, key=str):
